@@ -3,6 +3,7 @@ import TxdbusModel.Proofs.Bus.Belief
 import TxdbusModel.Proofs.Bus.SpecExec
 import TxdbusModel.Proofs.Bus.Lookup
 import TxdbusModel.Proofs.Bus.LookupRoute
+import TxdbusModel.Proofs.Bus.LookupRouteRun
 import TxdbusModel.Bus.NamesPre
 /-!
 # Property C13 — built-in bus: a name has one live owner; ownership follows request flags
@@ -505,6 +506,97 @@ example (cfg : Cfg ρ) :
   · rw [hfin, owns_wellKnown exEnc_ok, hagree 0, hlook]
     rfl
 
+/-! ## 11. One bus: C13's model drives C14's model (extension 2026-09-30)
+
+`gen enc fgn State.init hs` turns a history `hs` of C13's model (name operations, messages, questions) into a
+history of C14's model: `connect` + Hello for a new connection (so C13's `k` is C14's `phi k = k - 1`), a
+call to the bus carrying the effects C13's model computes (`ownerEffects`) for RequestName / ReleaseName, a
+`disconnect` carrying them, an effect-free bus call for the queries, an addressed message for `send`.
+`Joint enc s r`: C14's connections are C13's (named `:1.k`, live iff connected), the counters agree, no
+rules, and `OwnersAgree`. -/
+
+/-- The joint invariant holds after every history that C13's model runs. -/
+theorem joint_bus_invariant {cfg : Cfg ρ} (hr : cfg.Repaired) (he : NameEnc enc)
+    (hne : ∀ a, enc a ≠ [] ∧ enc a ≠ BusRoute.busName) (fgn : BusRoute.Name) (hf : fgn.head? = some ':')
+    {hs : List Bus.HStep} {s : Bus.State} {outs : List Bus.HOut}
+    (h : Bus.runL Bus.State.init hs = .ok (s, outs)) :
+    Joint enc s (BusRoute.final cfg BusRoute.State.init (gen enc fgn Bus.State.init hs)) :=
+  joint_run hr he hne fgn hf (Joint.init enc) h
+
+/-- **Composition of C13 and C14.**  Run any history `h1` on C13's model (to `s1`) and the generated
+history on C14's model (to `r1`).  A message that a connected `c` then addresses to ANY destination `d`
+(well-known, unique, other colon name) is, in C14's model, delivered exactly once - to the connection that
+C13's SPECIFICATION names as the owner of `d` at that moment - or to nobody when the specification has no
+owner; the receiver is connected in C13's model, live in C14's and carries the unique name `:1.k`; nothing
+else changes.  (The first conjunct: this event IS what `gen` emits for `send c d` at that point.) -/
+theorem joint_bus_unicast {cfg : Cfg ρ} (hr : cfg.Repaired) (he : NameEnc enc)
+    (hne : ∀ a, enc a ≠ [] ∧ enc a ≠ BusRoute.busName) (fgn : BusRoute.Name) (hf : fgn.head? = some ':')
+    (hf2 : ∀ k, fgn ≠ BusRoute.uniqueNameOf k)
+    {h1 : List Bus.HStep} {s1 : Bus.State} {o1 : List Bus.HOut}
+    (h : Bus.runL Bus.State.init h1 = .ok (s1, o1)) {c : Bus.Conn} (hc : s1.connected c = true) (d : Bus.Dest) :
+    gen (ρ := ρ) enc fgn Bus.State.init (h1 ++ [.send c d]) =
+      gen enc fgn Bus.State.init h1 ++ [.msg (phi c) (addressedMsg (destStr enc fgn d)) (.exec [])] ∧
+    (BusRoute.step cfg (BusRoute.final cfg BusRoute.State.init (gen enc fgn Bus.State.init h1))
+        (.msg (phi c) (addressedMsg (destStr enc fgn d)) (.exec []))).1 =
+      BusRoute.final cfg BusRoute.State.init (gen enc fgn Bus.State.init h1) ∧
+    (BusRoute.step cfg (BusRoute.final cfg BusRoute.State.init (gen enc fgn Bus.State.init h1))
+        (.msg (phi c) (addressedMsg (destStr enc fgn d)) (.exec []))).2.deliveries =
+      (match (Bus.abs s1).ownerOf d with
+       | some k => [⟨phi k, .fwd (phi c)
+                      (BusRoute.remarshal (addressedMsg (destStr enc fgn d)) (BusRoute.uniqueNameOf c))⟩]
+       | none => []) ∧
+    (∀ k, (Bus.abs s1).ownerOf d = some k → s1.connected k = true ∧
+      BusRoute.Live (BusRoute.final cfg BusRoute.State.init (gen enc fgn Bus.State.init h1)) (phi k) ∧
+      BusRoute.nameOf (BusRoute.final cfg BusRoute.State.init (gen enc fgn Bus.State.init h1)) (phi k)
+        = some (BusRoute.uniqueNameOf k)) := by
+  have J := joint_bus_invariant (cfg := cfg) hr he hne fgn hf h
+  have hI := J.invN
+  obtain ⟨a, b⟩ := J.send hr he hne fgn hf hf2 hc d
+  refine ⟨?_, a, ?_, ?_⟩
+  · rw [gen_append fgn h]
+    simp [gen, Bus.stepL, genStep, hc]
+  · rw [b, Bus.routerLookup_abs hI]
+    cases (Bus.abs s1).ownerOf d <;> rfl
+  · intro k hk
+    rw [← Bus.routerLookup_abs hI] at hk
+    have hck := Bus.routerLookup_alive hI hk
+    obtain ⟨hp, _, hget, hlive⟩ := J.conn_of hck
+    refine ⟨hck, ?_, ?_⟩
+    · show BusRoute.connected _ (phi k) = true
+      rw [BusRoute.connected_of_getElem _ _ _ hget]; exact hlive
+    · rw [BusRoute.nameOf_of_getElem _ _ _ hget]
+      show some (BusRoute.uniqueNameOf (phi k + 1)) = _
+      rw [hp]
+
+/-- In the joint system C14's owner of a well-known name is always a live connection (what C14's
+`owner_unique` cannot say on its own). -/
+theorem joint_bus_owner_is_live {cfg : Cfg ρ} (hr : cfg.Repaired) (he : NameEnc enc)
+    (hne : ∀ a, enc a ≠ [] ∧ enc a ≠ BusRoute.busName) (fgn : BusRoute.Name) (hf : fgn.head? = some ':')
+    {hs : List Bus.HStep} {s : Bus.State} {outs : List Bus.HOut}
+    (h : Bus.runL Bus.State.init hs = .ok (s, outs)) (j : ConnId) (n : Bus.Name)
+    (hj : BusRoute.Owns (BusRoute.final cfg BusRoute.State.init (gen enc fgn Bus.State.init hs)) j (enc n)) :
+    BusRoute.Live (BusRoute.final cfg BusRoute.State.init (gen enc fgn Bus.State.init hs)) j := by
+  have J := joint_bus_invariant (cfg := cfg) hr he hne fgn hf h
+  obtain ⟨evss, h2⟩ := Bus.lookups_change_nothing h
+  exact J.owner_live he (Bus.reachable_of_run Bus.Reachable.init h2) j n hj
+
+/-- The hypotheses are satisfiable: the example history runs, its sender 2 is connected at the end, the
+name has an owner; `exEnc` / `exForeign` are admissible strings. -/
+example : ∃ s1 o1, Bus.runL Bus.State.init exHist = .ok (s1, o1) ∧ s1.connected 2 = true ∧
+    (Bus.abs s1).ownerOf (.wellKnown 0) = some 2 ∧ (Bus.abs s1).ownerOf (.unique 1) = none ∧
+    NameEnc exEnc ∧ (∀ a, exEnc a ≠ [] ∧ exEnc a ≠ BusRoute.busName) ∧
+    exForeign.head? = some ':' ∧ ∀ k, exForeign ≠ BusRoute.uniqueNameOf k := by
+  obtain ⟨s, outs, hrun⟩ : ∃ s outs, Bus.runL Bus.State.init exHist = .ok (s, outs) := ⟨_, _, rfl⟩
+  have hI := (Bus.runL_refines Bus.inv_init hrun).1
+  have h3 : (Bus.runL Bus.State.init exHist).toOption.map (fun r =>
+      (r.1.connected 2, Bus.routerLookup r.1 (.wellKnown 0), Bus.routerLookup r.1 (.unique 1)))
+      = some (true, some 2, none) := by decide
+  rw [hrun] at h3
+  simp only [Except.toOption, Option.map_some, Option.some.injEq, Prod.mk.injEq] at h3
+  refine ⟨s, outs, hrun, h3.1, ?_, ?_, exEnc_ok, exEnc_addressed, exForeign_ok.1, exForeign_ok.2⟩
+  · rw [← Bus.routerLookup_abs hI]; exact h3.2.1
+  · rw [← Bus.routerLookup_abs hI]; exact h3.2.2
+
 end Txdbus.NamesRoute
 
 #print axioms Txdbus.Bus.inv_reachable
@@ -542,3 +634,6 @@ end Txdbus.NamesRoute
 #print axioms Txdbus.NamesRoute.router_models_agree
 #print axioms Txdbus.NamesRoute.unicast_reaches_spec_owner
 #print axioms Txdbus.NamesRoute.wellknown_owner_is_live
+#print axioms Txdbus.NamesRoute.joint_bus_invariant
+#print axioms Txdbus.NamesRoute.joint_bus_unicast
+#print axioms Txdbus.NamesRoute.joint_bus_owner_is_live
